@@ -4,7 +4,13 @@ CONSTANTS MaxWraps = 4
           MaxCalls = 5
           Wide = TRUE
           FixedCode = TRUE
-          Modes = {"bind", "heap", "memo", "chain"}
+          Modes = {"bind", "heap", "memo", "chain", "exc", "args", "deco"}
+          MaxExcChain = 2
+          MaxBindings = 2
+          MaxArgSteps = 4
+          MaxDecoObjs = 4
+          MaxDecoCalls = 3
+          TwoDecos = TRUE
 INIT Init
 NEXT NextGen
 INVARIANT MemoIsLaw
